@@ -5,7 +5,9 @@
      QMI_SocketTransport._read_from_socket / read / read_until / read_until_timeout /
        discard_read / _open_transport / close      (QMI_TcpTransport: MIN/MAX_PACKET_SIZE = 0/512,
                                                      QMI_UdpTransport: 4096/4096),
-     QMI_SerialTransport.read / read_until / read_until_timeout / discard_read / close.
+     QMI_TcpTransport.write (settimeout(None); sendall), QMI_UdpTransport.write (settimeout(None);
+       sendto(data, address)),
+     QMI_SerialTransport.read / read_until / read_until_timeout / discard_read / close / write.
 
    The device is an adversarial oracle: a list of events.  Every access of the device
    (socket.recvfrom / socket.recv; Serial.in_waiting / read / reset_input_buffer) consumes the
@@ -23,18 +25,20 @@ Export ListNotations.
 Inductive ev := Chunk (bs : list N) (dt : Z) | TimeoutEv (dt : Z) | Eof.
 
 (* which transport class; [rut_slice] = read_until_timeout hands out at most n bytes of the buffer
-   (what the property demands).  The current tree has rut_slice = false. *)
+   (what the property demands; the tree does so since the fix "read_until_timeout never returns
+   more than nbytes").  [udp_cfg_cur] is QMI_UdpTransport as it was before that fix (whole buffer
+   handed out); it is kept as the regression witness of C13_rut_len_udp_refuted. *)
 Record cfg := mkcfg { stream : bool; minp : N; maxp : N; rut_slice : bool }.
-Definition tcp_cfg := mkcfg true 0 512 false.          (* QMI_TcpTransport, current tree *)
-Definition tcp_cfg_sl := mkcfg true 0 512 true.        (* ... with the sliced read_until_timeout *)
-Definition udp_cfg_cur := mkcfg false 4096 4096 false. (* QMI_UdpTransport, current tree (defect) *)
-Definition udp_cfg := mkcfg false 4096 4096 true.      (* QMI_UdpTransport as the property demands *)
+Definition tcp_cfg := mkcfg true 0 512 true.           (* QMI_TcpTransport *)
+Definition udp_cfg := mkcfg false 4096 4096 true.      (* QMI_UdpTransport *)
+Definition udp_cfg_cur := mkcfg false 4096 4096 false. (* QMI_UdpTransport before the fix (defect) *)
 
 (* calls made on the socket / serial.Serial stand-in *)
 Inductive dcall :=
 | DOpen | DClose
 | DSetTmo (t : option Z) | DRecvFrom (n : N) | DRecv (n : N)       (* socket *)
-| DInWaiting | DRead (n : N) | DReset.                             (* serial.Serial *)
+| DInWaiting | DRead (n : N) | DReset                              (* serial.Serial *)
+| DSend (d : list N).          (* socket.sendall / socket.sendto(d, address) / Serial.write *)
 
 (* [pend] is the operating-system input buffer of the serial port (always [] for sockets);
    [dlog] is the device-access log, newest call first. *)
@@ -232,6 +236,11 @@ Definition sock_open (s : st) : st * res * list N :=
 Definition do_close (s : st) : st * res :=
   if is_open s then (logc (set_open s false) DClose, RNone) else (s, RInvalid).
 
+(* QMI_TcpTransport.write / QMI_UdpTransport.write: _check_is_open; settimeout(None); send.
+   Writing neither consumes device events nor touches the read buffer. *)
+Definition sock_write (d : list N) (s : st) : st * res :=
+  if is_open s then (logc (logc s (DSetTmo None)) (DSend d), RNone) else (s, RInvalid).
+
 (* ------------------------------------------------------------------------------------------ *)
 (* Serial device (serial.Serial stand-in)                                                      *)
 (* ------------------------------------------------------------------------------------------ *)
@@ -330,6 +339,10 @@ Definition ser_discard (s : st) : st * res * list N :=
     (set_buf (set_pend s1 []) [], RNone, buf s ++ pend s1)
   else (s, RInvalid, []).
 
+(* QMI_SerialTransport.write: _check_is_open; Serial.write(data) *)
+Definition ser_write (d : list N) (s : st) : st * res :=
+  if is_open s then (logc s (DSend d), RNone) else (s, RInvalid).
+
 (* QMI_SerialTransport._open_transport does not clear the buffer *)
 Definition ser_open (s : st) : st * res * list N :=
   if is_open s then (s, RInvalid, []) else (logc (set_open s true) DOpen, RNone, []).
@@ -343,7 +356,8 @@ Inductive op :=
 | OpRead (n : N) (tmo : option Z)
 | OpReadUntil (term : list N) (tmo : option Z)
 | OpRut (n : N) (tmo : option Z)
-| OpDiscard.
+| OpDiscard
+| OpWrite (d : list N).
 
 Inductive kind := Sock (c : cfg) | Serial.
 
@@ -365,6 +379,8 @@ Definition step_raw (k : kind) (s : st) (o : op) : st * res * list N :=
   | Serial, OpRut n t => nodrop (ser_rut n t s)
   | Sock c, OpDiscard => sock_discard c s
   | Serial, OpDiscard => ser_discard s
+  | Sock _, OpWrite d => nodrop (sock_write d s)
+  | Serial, OpWrite d => nodrop (ser_write d s)
   end.
 
 Definition new_calls (s s' : st) : list dcall :=
@@ -388,3 +404,25 @@ Fixpoint run (k : kind) (s : st) (ops : list op) : st * list outp :=
 (* the bytes a call hands to the caller, and all bytes it removed from the stream *)
 Definition returned (x : outp) : list N := match o_res x with RBytes b => b | _ => [] end.
 Definition consumed (x : outp) : list N := returned x ++ o_dropped x.
+
+(* the byte strings handed to the device's send call, oldest first ([dlog] is newest first) *)
+Fixpoint sentl (l : list dcall) : list (list N) :=
+  match l with
+  | [] => []
+  | DSend d :: r => d :: sentl r
+  | _ :: r => sentl r
+  end.
+Definition sent (s : st) : list (list N) := rev (sentl (dlog s)).
+
+(* the byte strings of the write calls of a run that were accepted, in call order *)
+Fixpoint accepted_writes (ops : list op) (outs : list outp) : list (list N) :=
+  match ops, outs with
+  | OpWrite d :: ops', x :: outs' =>
+      match o_res x with RNone => d :: accepted_writes ops' outs' | _ => accepted_writes ops' outs' end
+  | _ :: ops', _ :: outs' => accepted_writes ops' outs'
+  | _, _ => []
+  end.
+
+(* timing assumption for the serial fuel bound: the clock never runs backwards *)
+Definition ev_dt_ok (e : ev) : Prop :=
+  match e with Chunk _ dt | TimeoutEv dt => (0 <= dt)%Z | Eof => True end.
